@@ -260,3 +260,86 @@ def gzip_lie(data: bytes, declared: int, level: int = 6) -> bytes:
     """A gzip member whose ISIZE trailer says ``declared``."""
     m = gzip_member(data, level)
     return m[:-4] + struct.pack("<I", declared & 0xFFFFFFFF)
+
+
+# ------------------------------------------------------------------------------------------------ TLC wrappers
+# vf.table enumerates Cases / judges observations as *initial states*, which TLC computes on one thread
+# (measured here: 465k cases = 6 min).  The two wrappers below have the same contract as
+# vf.table.enumerate_cases / vf.table.judge but spread the work over TLC's workers: initial states are a small
+# set of seeds (or observation blocks), the cases (observations) are their successors.
+import json as _json
+import re as _re
+
+from vf.core import Ctx as _Ctx
+from vf.tlc import MachineryError, render_cfg, require_ok, run_tlc, sany
+
+_ENUM2 = """---- MODULE {m}_Enum2 ----
+EXTENDS {m}, Json, TLC
+VARIABLES c, full
+EnumInit == c \\in {seeds} /\\ full = FALSE
+EnumNext == full = FALSE /\\ c' \\in {expand}(c) /\\ full' = TRUE
+Emit == full => PrintT("@@J@@" \\o ToJson([case |-> c, exp |-> {expected}(c)]))
+{invs}
+====
+"""
+
+_OBS2 = """---- MODULE {m}_Obs2 ----
+EXTENDS {m}, Json, TLC, IOUtils, Sequences, Naturals
+Obs == JsonDeserialize(IOEnv.OBS_FILE)
+VARIABLES blk, i
+ObsN == Len(Obs)
+ObsB == {block}
+ObsInit == blk \\in 0..((ObsN - 1) \\div ObsB) /\\ i = 0
+ObsNext == /\\ i = 0
+           /\\ i' \\in (blk * ObsB + 1)..(IF (blk + 1) * ObsB < ObsN THEN (blk + 1) * ObsB ELSE ObsN)
+           /\\ UNCHANGED blk
+Judge == i = 0 \\/ LET bad == {conforms}(Obs[i].case, Obs[i].obs) IN
+           bad = {{}} \\/ PrintT("@@J@@" \\o ToJson([i |-> i, bad |-> bad]))
+====
+"""
+
+_INIT_N = _re.compile(r"Finished computing initial states: (\d+) distinct state")
+
+
+def enumerate_split(ctx: _Ctx, engine: str, module: str, *, constants=None, invariants=(), seeds="Seeds",
+                    expand="Expand", expected="Expected", emit=True, name=None, timeout=900) -> list:
+    wd = ctx.wd.stage(engine)
+    invs = "\n".join(f"Inv_{x} == full => {x}(c)" for x in invariants)
+    (wd / f"{module}_Enum2.tla").write_text(_ENUM2.format(m=module, seeds=seeds, expand=expand, expected=expected,
+                                                          invs=invs))
+    sany(wd, f"{module}_Enum2")
+    cfg = render_cfg(init_next=("EnumInit", "EnumNext"), constants=constants,
+                     invariants=[f"Inv_{x}" for x in invariants] + (["Emit"] if emit else []))
+    r = run_tlc(wd, f"{module}_Enum2", cfg, timeout=timeout, cfg_name=f"{module}_{name or 'enum2'}.cfg")
+    ctx.add_tlc(name or f"{module}:enumerate", r)
+    require_ok(r, f"{module} table enumeration / table invariants {list(invariants)}")
+    m = _INIT_N.search(r.out)
+    nseeds = int(m.group(1)) if m else -1
+    if emit and len(r.json_lines) != r.distinct - nseeds:
+        raise MachineryError(f"{module}: {r.distinct} states, {nseeds} seeds, but {len(r.json_lines)} cases emitted")
+    ctx.extra.setdefault("enumerated_cases", {})[name or f"{module}:enumerate"] = r.distinct - nseeds
+    return r.json_lines
+
+
+def judge_split(ctx: _Ctx, engine: str, module: str, observations: list, *, constants=None, conforms="Conforms",
+                timeout=900, chunk=60000, block=256) -> list:
+    wd = ctx.wd.stage(engine)
+    (wd / f"{module}_Obs2.tla").write_text(_OBS2.format(m=module, conforms=conforms, block=block))
+    sany(wd, f"{module}_Obs2")
+    bad = []
+    for off in range(0, len(observations), chunk):
+        part = observations[off:off + chunk]
+        f = wd / f"obs_{module}_{off}.json"
+        f.write_text(_json.dumps(part))
+        cfg = render_cfg(init_next=("ObsInit", "ObsNext"), constants=constants, invariants=["Judge"])
+        r = run_tlc(wd, f"{module}_Obs2", cfg, timeout=timeout, env={"OBS_FILE": str(f)}, cfg_name=f"{module}_obs2.cfg")
+        ctx.add_tlc(f"{module}:judge[{off}:{off + len(part)}]", r)
+        require_ok(r, f"{module} observation judging")
+        nblk = (len(part) - 1) // block + 1
+        if r.distinct != len(part) + nblk:
+            raise MachineryError(f"{module}: judged {r.distinct - nblk} of {len(part)} observations")
+        ctx.traces_validated += len(part) - len(r.json_lines)
+        for j in r.json_lines:
+            bad.append((off + j["i"] - 1, list(j["bad"])))
+        f.unlink()
+    return bad
